@@ -60,6 +60,12 @@ func vfIsProxyCookie(cfg *vfCfg, name string) bool {
 	if name == n || name == n+"_csrf" {
 		return true
 	}
+	// split parts of names close to the 256-character limit are named from a truncated base
+	if len(name) == 256 && len(n) > 250 {
+		if i := strings.LastIndex(name, "_"); i > 0 && strings.Trim(name[i+1:], "0123456789") == "" && name[i+1:] != "" && strings.HasPrefix(n, name[:i]) {
+			return true
+		}
+	}
 	if strings.HasPrefix(name, n+"_") {
 		rest := name[len(n)+1:]
 		if strings.HasSuffix(rest, "_csrf") {
